@@ -54,17 +54,14 @@ Lemma commit_reaches_iff s :
   (forall o, (o < length (heap (cn s Par)))%nat ->
      let i := get_inst s Par o in
      reachable_obj s Par o = true -> i_obsolete i = false -> no_vals i = false -> changed s (i_id i) = true ->
-     In (i_id i) (all_ids cfg s Txn ++ deleted s) /\ try_get cfg s Par (i_id i) = Some o /\ i_expired i = false) /\
-  (forall id o, In id (all_ids cfg s Txn ++ deleted s) -> try_get cfg s Par id = Some o ->
-     expirable (get_inst s Par o) = true).
+     In (i_id i) (all_ids cfg s Txn ++ deleted s) /\ try_get cfg s Par (i_id i) = Some o /\ i_expired i = false).
 Proof.
-  unfold commit_reaches. rewrite andb_true_iff, forallb_seq_nat, forallb_forall. split; intros [H1 H2]; split.
+  unfold commit_reaches. rewrite forallb_seq_nat. split; intros H1.
   - intros o Ho Hr Hob Hnv Hch. specialize (H1 o Ho). set (i := get_inst s Par o) in *.
     rewrite Hr, Hob, Hnv, Hch in H1. cbn in H1.
     apply andb_true_iff in H1. destruct H1 as [H1 H3]. apply andb_true_iff in H1. destruct H1 as [H1 H4].
     apply mem_z_In in H1. split; [exact H1|]. split; [|apply negb_true_iff; exact H3].
     destruct (try_get cfg s Par (i_id i)) as [o'|]; [|discriminate]. apply Nat.eqb_eq in H4. congruence.
-  - intros id o Hin Ht. specialize (H2 id Hin). rewrite Ht in H2. exact H2.
   - intros o Ho. specialize (H1 o Ho).
     destruct (reachable_obj s Par o) eqn:Hr; cbn; auto.
     destruct (i_obsolete (get_inst s Par o)) eqn:Hob; cbn; auto.
@@ -72,11 +69,7 @@ Proof.
     destruct (changed s (i_id (get_inst s Par o))) eqn:Hch; cbn; auto.
     destruct (H1 eq_refl eq_refl eq_refl eq_refl) as (A & B & C).
     rewrite B, C, Nat.eqb_refl. cbn. rewrite !andb_true_r. apply mem_z_In. exact A.
-  - intros id Hin. destruct (try_get cfg s Par id) as [o|] eqn:Ht; auto. apply (H2 id o Hin Ht).
 Qed.
-
-Lemma expirable_ok i : expirable i = true -> i_expired i = true \/ all_vals i = true.
-Proof. unfold expirable. destruct (i_expired i); auto. Qed.
 
 (* state equalities used below: the low-level commit touches only the tables *)
 Lemma try_get_low s s' sd : cn s' sd = cn s sd -> slots s' = slots s -> forall id, try_get cfg s' sd id = try_get cfg s sd id.
@@ -92,7 +85,7 @@ Theorem commit_partial s close :
              tobs s' = close /\ par_fresh s' = true.
 Proof.
   intros Hc Hto Hpf Hg.
-  rewrite par_fresh_iff in Hpf. rewrite commit_reaches_iff in Hg. destruct Hg as [Hg1 Hg2].
+  rewrite par_fresh_iff in Hpf. rewrite commit_reaches_iff in Hg. pose proof Hg as Hg1.
   unfold step. cbn [run_op]. unfold bind at 1. unfold txn_commit. unfold bind at 1. unfold gets at 1. cbn [fst snd].
   set (s0 := with_log s []). change (tobs s0) with (tobs s). rewrite Hto.
   unfold bind at 1. unfold modify at 1. unfold bind at 1. unfold gets at 1.
@@ -106,7 +99,6 @@ Proof.
   assert (Htg : forall id, try_get cfg s1 Par id = try_get cfg s Par id) by (apply try_get_low; auto).
   assert (Hgi : forall o, get_inst s1 Par o = get_inst s Par o) by reflexivity.
   destruct (expire_ids_spec cfg Par ids s1 Hc1) as (s2 & E2 & R2 & C2 & V2 & N2).
-  { intros id o Hin Ht. rewrite Htg in Ht. rewrite Hgi. apply expirable_ok. apply (Hg2 id o Hin Ht). }
   unfold bind at 1. rewrite E2.
   destruct R2 as (Rs & Rc & Rp & Rd & Rt & Rl & Ro & Rlen & Rid & Rv & Rstr).
   (* the state before the optional close *)
@@ -172,24 +164,20 @@ Lemma rollback_reaches_iff s :
   (forall o, (o < length (heap (cn s Txn)))%nat ->
      let i := get_inst s Txn o in
      reachable_obj s Txn o = true -> i_obsolete i = false -> no_vals i = false ->
-     try_get cfg s Txn (i_id i) = Some o /\ i_expired i = false /\ all_vals i = true) /\
-  (forall id o, In id (all_ids cfg s Txn) -> try_get cfg s Txn id = Some o ->
-     expirable (get_inst s Txn o) = true).
+     try_get cfg s Txn (i_id i) = Some o /\ i_expired i = false).
 Proof.
-  unfold rollback_reaches. rewrite andb_true_iff, forallb_seq_nat, forallb_forall. split; intros [H1 H2]; split.
+  unfold rollback_reaches. rewrite forallb_seq_nat. split; intros H1.
   - intros o Ho Hr Hob Hnv. specialize (H1 o Ho). set (i := get_inst s Txn o) in *.
     rewrite Hr, Hob, Hnv in H1. cbn in H1.
-    apply andb_true_iff in H1. destruct H1 as [H1 H3]. apply andb_true_iff in H1. destruct H1 as [H1 H4].
-    split; [|split; [apply negb_true_iff; exact H4|exact H3]].
+    apply andb_true_iff in H1. destruct H1 as [H1 H4].
+    split; [|apply negb_true_iff; exact H4].
     destruct (try_get cfg s Txn (i_id i)) as [o'|]; [|discriminate]. apply Nat.eqb_eq in H1. congruence.
-  - intros id o Hin Ht. specialize (H2 id Hin). rewrite Ht in H2. exact H2.
   - intros o Ho. specialize (H1 o Ho).
     destruct (reachable_obj s Txn o) eqn:Hr; cbn; auto.
     destruct (i_obsolete (get_inst s Txn o)) eqn:Hob; cbn; auto.
     destruct (no_vals (get_inst s Txn o)) eqn:Hnv; cbn; auto.
-    destruct (H1 eq_refl eq_refl eq_refl) as (A & B & C).
-    rewrite A, B, C, Nat.eqb_refl. reflexivity.
-  - intros id Hin. destruct (try_get cfg s Txn id) as [o|] eqn:Ht; auto. apply (H2 id o Hin Ht).
+    destruct (H1 eq_refl eq_refl eq_refl) as (A & B).
+    rewrite A, B, Nat.eqb_refl. reflexivity.
 Qed.
 
 (* every tryGet hit is among allIDs *)
@@ -212,7 +200,7 @@ Theorem rollback_partial s :
              (forall o, reachable_obj s' Txn o = true -> i_obsolete (get_inst s' Txn o) = false ->
                         no_vals (get_inst s' Txn o) = true).
 Proof.
-  intros Hc Hto Hg. rewrite rollback_reaches_iff in Hg. destruct Hg as [Hg1 Hg2].
+  intros Hc Hto Hg. rewrite rollback_reaches_iff in Hg. pose proof Hg as Hg1.
   unfold step. cbn [run_op]. unfold bind at 1. unfold txn_rollback. unfold bind at 1. unfold gets at 1. cbn [fst snd].
   set (s0 := with_log s []). change (tobs s0) with (tobs s). rewrite Hto.
   unfold bind at 1. unfold modify at 1.
@@ -225,7 +213,6 @@ Proof.
   assert (Htg : forall id, try_get cfg s1 Txn id = try_get cfg s Txn id) by (apply try_get_low; auto).
   assert (Hgi : forall o, get_inst s1 Txn o = get_inst s Txn o) by reflexivity.
   destruct (expire_ids_spec cfg Txn ids s1 Hc1) as (s2 & E2 & R2 & C2 & V2 & N2).
-  { intros id o Hin Ht. rewrite Htg in Ht. rewrite Hgi. apply expirable_ok. apply (Hg2 id o Hin Ht). }
   unfold bind at 1. rewrite E2.
   destruct R2 as (Rs & Rc & Rp & Rd & Rt & Rl & Ro & Rlen & Rid & Rv & Rstr).
   unfold make_obsolete, modify, bind. cbn.
@@ -242,7 +229,7 @@ Proof.
   destruct (no_vals (get_inst s Txn o)) eqn:Hnv.
   { destruct (Rv o) as [E|(_ & E & _)]; [rewrite E, Hgi; exact Hnv|exact E]. }
   destruct (Nat.lt_ge_cases o (length (heap (cn s Txn)))) as [Ho|Ho].
-  - destruct (Hg1 o Ho Hr' Hob' Hnv) as (A & B & C).
+  - destruct (Hg1 o Ho Hr' Hob' Hnv) as (A & B).
     apply V2; [|rewrite Hgi; exact B].
     exists (i_id (get_inst s Txn o)). split; [|rewrite Htg; exact A].
     eapply try_get_in_all_ids; eauto.
